@@ -93,6 +93,7 @@ def run(ctx):
     row_start = {"form-feed": 0, "stray-CR": 0, "VT": 0, "unicode-blank": 0}
     perm_counts = {}
     ties = 0
+    touch_repl = 0
     placement = {"inside": 0, "equal": 0, "front": 0, "behind": 0}
     names_total = arr_bad = arr_bad_cases = 0
     arr_bad_ids = []
@@ -157,6 +158,7 @@ def run(ctx):
         for cls, key in (("form-feed", "rsff"), ("stray-CR", "rscr"), ("VT", "rsvt"), ("unicode-blank", "rsuni")):
             row_start[cls] += int(kv.get(key, 0))
         ties += int(kv.get("ties", 0))
+        touch_repl += int(kv.get("touchrepl", 0))
         for pm in kv.get("perms", "-").split(","):
             if pm != "-" and pm:
                 perm_counts[pm] = perm_counts.get(pm, 0) + 1
@@ -204,6 +206,7 @@ def run(ctx):
         "tags_by_placement_of_name_vs_tagged_node": placement,
         "tags_on_rows_starting_with": row_start,
         "name_nodes_with_several_matches_of_their_lowest_pattern(ties)": ties,
+        "replacements_of_a_queued_tag_across_a_touching_next_name": touch_repl,
         "name_nodes_shared_by_3_or_4_patterns_by_arrival_order_of_pattern_indices": dict(sorted(perm_counts.items())),
         "explorer_summary": summary,
         "model_variants_matching_all_cases": matching,
@@ -228,6 +231,9 @@ def run(ctx):
         ctx.oblige("inputs:tags-on-rows-starting-with-FF/CR/VT/unicode-blank>=30-each", all(v >= 30 for v in row_start.values()),
                    str(row_start))
         ctx.oblige("inputs:name-nodes-with-several-matches-of-the-lowest-pattern>=50", ties >= 50, "%d" % ties)
+        # round 11: a lower-index match replaces a queued tag although another name starting exactly at its end was
+        # queued in between (release test of the queue is strict `<`)
+        ctx.oblige("inputs:replacements-across-a-touching-next-name>=100", touch_repl >= 100, "%d" % touch_repl)
         ctx.oblige("inputs:4-patterns-one-name-all-24-arrival-orders>=3", all(v >= 3 for v in p4.values()),
                    str({k: v for k, v in p4.items() if v < 3}) or "all")
     if evals == 0:
